@@ -52,6 +52,27 @@ def run(ck: Checker):
                     if isinstance(t, ast.Subscript) and names_in(n.value) & derived:
                         probs.append(f'pulled elements are also stored in `{norm_text(t.value)}` (L{n.lineno})')
         ck.ob('C08-2', p.prod, loop.iter, not probs, '; '.join(sorted(set(probs))) if probs else f'elements flow only to the worker function / preprocessor and the blocking `{p.q}.put`')
+        # ... and on the consumer side: what is taken off the hand-off queue goes to the consumer, not into a second
+        # container (every slot freed that way is refilled by the producer: the look-ahead doubles)
+        cprobs = []
+        csc = p.cscope
+        got = set()
+        body_c = [n for n in walk_shallow_func(p.cons.node)]
+        for n in body_c:
+            if isinstance(n, ast.Assign) and len(n.targets) == 1 and isinstance(n.targets[0], ast.Name):
+                v = n.value.value if isinstance(n.value, ast.Await) else n.value
+                if isinstance(v, ast.Call) and method_of(v)[1] in ('get', 'get_nowait') and method_of(v)[0] is not None and csc.canon(method_of(v)[0]) == p.q:
+                    got.add(n.targets[0].id)
+        for n in body_c:
+            if isinstance(n, ast.Call):
+                r, me = method_of(n)
+                if me in ('append', 'appendleft', 'add', 'extend', 'insert', 'put', 'put_nowait') and r is not None and csc.canon(r) != p.q:
+                    for a in n.args:
+                        inner_get = any(isinstance(c_, ast.Call) and method_of(c_)[1] in ('get', 'get_nowait') and method_of(c_)[0] is not None and csc.canon(method_of(c_)[0]) == p.q for c_ in ast.walk(a))
+                        if inner_get or (names_in(a) & got):
+                            cprobs.append(f'L{n.lineno}: `{norm_text(n)[:60]}` moves elements from the hand-off queue into `{dotted(r) or norm_text(r)}`: the slots freed are refilled by the producer while the consumer still holds the moved elements — the look-ahead is no longer bounded by the queue')
+        if p.fin is None or p.cons is not p.fin:
+            ck.ob('C08-2', p.cons, (p.cons.node.lineno, 'consumer side containers'), not cprobs, '; '.join(sorted(set(cprobs))) if cprobs else f'what the consumer takes off `{p.q}` is stored nowhere else')
     # -------------------------------------------------------------------- C08-3
     check_private_pool(ck, 'C08-3')
     check_pool_size(ck, 'C08-3')
